@@ -93,17 +93,28 @@ def replay_state(chk, st, cplx, names, counter):
             two = eval_lags(c, nfft)
             exp = two if cplx else two[:onelen(nfft)]
             case = {'y': y, 'window': name, 'x': x, 'NFFT': nfft, 'expect': exp}
-            ok, res = call_guard(speriodogram, x.copy(), NFFT=nfft, detrend=False, scale_by_freq=False, window=name)
-            chk.evaluations += 1
-            if not ok:
-                chk.violation('C01:speriodogram:%s:raises' % mode, 'speriodogram raises %r' % (res,), case)
-            else:
-                bad = cmp_vec(res, exp, tol=1e-7, name='psd')
-                if bad:
-                    lenbad = np.asarray(res).shape != exp.shape
-                    chk.violation('C01:speriodogram:%s:%s' % (mode, 'bins' if lenbad else 'values'),
-                                  'speriodogram(x, NFFT=%d, window=%s) with x*w=%s is not |DFT(x*w)|^2/N: %s' % (nfft, name, y.tolist(), bad),
-                                  dict(case, observed=res))
+            # entry paths: the float / complex array, and - when x happens to be integer valued (e.g. hann at
+            # N = 5 gives x = 2y) - the same samples as a python list of ints and as an integer array
+            entries = [('array', x.copy())]
+            if not cplx and np.all(x == np.round(x)):
+                entries += [('list-int', [int(v) for v in x]), ('int64', x.astype(np.int64))]
+            for ename, xin in entries:
+                ok, res = call_guard(speriodogram, xin, NFFT=nfft, detrend=False, scale_by_freq=False, window=name)
+                chk.evaluations += 1
+                if not ok:
+                    chk.violation('C01:speriodogram:%s:raises:%s' % (mode, ename), 'speriodogram raises %r' % (res,), case)
+                else:
+                    bad = cmp_vec(res, exp, tol=1e-7, name='psd')
+                    if bad:
+                        lenbad = np.asarray(res).shape != exp.shape
+                        chk.violation('C01:speriodogram:%s:%s:%s' % (mode, 'bins' if lenbad else 'values', ename),
+                                      'speriodogram(x as %s, NFFT=%d, window=%s) with x*w=%s is not |DFT(x*w)|^2/N: %s' % (ename, nfft, name, y.tolist(), bad),
+                                      dict(case, entry=ename, observed=res))
+                if ename != 'array':
+                    okc, vc = call_guard(lambda: np.array(Periodogram(xin, window=name, NFFT=nfft).psd))
+                    if not okc or cmp_vec(vc, exp, tol=1e-7):
+                        chk.violation('C01:Periodogram:%s:values:%s' % (mode, ename),
+                                      'Periodogram(x as %s, window=%s, NFFT=%d).psd is not |DFT(x*w)|^2/N' % (ename, name, nfft), dict(case, entry=ename))
             ok, obj = call_guard(lambda: Periodogram(x.copy(), window=name, NFFT=nfft))
             if ok:
                 ok, v = call_guard(lambda: np.array(obj.psd))
